@@ -235,7 +235,7 @@ def probe_times(sig, rnd, cap=14):
         allt = keep
     return allt
 
-def pipeline(doc, reread, rnd, fails, stats, full=False, light=False):
+def pipeline(doc, reread, rnd, fails, stats, full=False):
     """every stage appends dict(stage=..., kind/type/site/msg) to `fails` on any exception"""
     from ttconv.isd import ISD
     import ttconv.srt.writer as sw, ttconv.vtt.writer as vw, ttconv.imsc.writer as iw
@@ -252,7 +252,7 @@ def pipeline(doc, reread, rnd, fails, stats, full=False, light=False):
             d = describe(e); d["stage"] = name; fails.append(d); return False, None
 
     ok, sig = stage("sig_times", lambda: ISD.significant_times(doc))
-    times = probe_times(sig, rnd, 4 if light else 14) if ok else [Fraction(0), Fraction(1), Fraction(5, 2)]
+    times = probe_times(sig, rnd) if ok else [Fraction(0), Fraction(1), Fraction(5, 2)]
     stats["sig"] = len(sig) if ok else -1
     seen = set()
     for t in times:
@@ -265,7 +265,7 @@ def pipeline(doc, reread, rnd, fails, stats, full=False, light=False):
             if (d["type"], d["site"]) not in seen:
                 seen.add((d["type"], d["site"])); fails.append(d)
     stats["snapshots"] = len(times)
-    if not light: stage("isd_sequence", lambda: ISD.generate_isd_sequence(doc))
+    stage("isd_sequence", lambda: ISD.generate_isd_sequence(doc))
 
     def writers(d, prefix, srt_cfgs, vtt_cfgs, imsc_cfgs):
         for c in srt_cfgs:
@@ -279,10 +279,6 @@ def pipeline(doc, reread, rnd, fails, stats, full=False, light=False):
     if full:
         writers(doc, "", SRT_W, VTT_W, IMSC_W)
         lcds = LCD_CFGS
-    elif light:
-        w = rnd.randrange(4)
-        writers(doc, "", [rnd.choice(SRT_W)] if w == 0 else [], [rnd.choice(VTT_W)] if w == 1 else [], [rnd.choice(IMSC_W)] if w >= 2 else [])
-        lcds = [rnd.choice(LCD_CFGS)] if rnd.random() < 0.25 else []
     else:
         writers(doc, "", [rnd.choice(SRT_W)], [rnd.choice(VTT_W)], rnd.sample(IMSC_W, 2))
         lcds = [rnd.choice(LCD_CFGS)]
@@ -300,7 +296,7 @@ def pipeline(doc, reread, rnd, fails, stats, full=False, light=False):
             writers(d2, f"lcd{c}>", SRT_W[:1] if w == 0 else [], VTT_W[-1:] if w == 1 else [], IMSC_W[:1] if w == 2 else [])
 
 
-def run_input(fmt, data, cfg_index=0, seed=0, time_limit=30, full=False, observe=True, light=False):
+def run_input(fmt, data, cfg_index=0, seed=0, time_limit=30, full=False, observe=True):
     """-> dict(outcome='doc'|'none'|'format:<T>'|'internal:<T>', read=<failure description or None>, fails=[...], trace=[...], stats={})"""
     import random
     global TRACE
@@ -328,7 +324,7 @@ def run_input(fmt, data, cfg_index=0, seed=0, time_limit=30, full=False, observe
             res["outcome"] = "none"; return res
         res["outcome"] = "doc"
         try:
-            pipeline(doc, lambda: read(fmt, data, cfg), rnd, res["fails"], res["stats"], full, light)
+            pipeline(doc, lambda: read(fmt, data, cfg), rnd, res["fails"], res["stats"], full)
         except InputTimeout:
             res["fails"].append(dict(kind="internal", type="Timeout", site="pipeline", msg=f"> {time_limit}s", stage="pipeline"))
         return res
